@@ -576,7 +576,8 @@ func (m *wireMon) onDeliver(to int, p *wirePacket, data []byte) {
 			sm.hbAckSeq = sm.ackPktSeq
 			sm.hbAckSeen = true
 		}
-		if c.typ == wtSACK {
+		if c.typ == wtSACK || c.typ == wtSHUTDOWN {
+			// (a SHUTDOWN acknowledges cumulatively, RFC 9260 9.2, and is a source of round-trip samples too)
 			sm.stepAckPkts++
 			sm.ackPktSeq++
 			// RTT candidates: chunks newly acknowledged by this SACK that were put on the wire exactly once
